@@ -6,7 +6,7 @@ package main
 //
 //	case <n> issue
 //	ca <kind> <signerLife|none> <chainLives> <root 0|1> <defaultTTL s> <maxTTL s>
-//	      kind: self | plug | plug2 | noroot | capchain | nosigner | expired | expiredchain | future   (how the harness builds it)
+//	      kind: self | selfk8s (NewSelfSignedIstioCAOptions) | plug | plugfile (NewPluggedCertIstioCAOptions) | plugrsa | plug2 | noroot | capchain | nosigner | expired | expiredchain | future   (how the harness builds it)
 //	      the remaining tokens are the abstract bundle the Lean model reads
 //	na -                                     no CA_TRUSTED_NODE_ACCOUNTS
 //	na <trusted ns/sa list> <k> <id1> <pods1> ... <idk> <podsk>
@@ -62,6 +62,7 @@ import (
 	"k8s.io/apimachinery/pkg/runtime"
 	"k8s.io/apimachinery/pkg/types"
 	kubefake "k8s.io/client-go/kubernetes/fake"
+	k8sfake "k8s.io/client-go/kubernetes/fake"
 	ktesting "k8s.io/client-go/testing"
 
 	pb "istio.io/api/security/v1alpha1"
@@ -135,7 +136,7 @@ func newKeyring() *keyring {
 
 // csrSpec is the adversarial content of one CSR.
 type csrSpec struct {
-	form  string   // ok oktype oktrail oklead nopem empty badder trunc badsig emptyblock
+	form  string   // ok oktype oktrail oklead nopem empty badder trunc badsig emptyblock gen (real util.GenCSR)
 	key   string   // name in the keyring
 	cn    string   // Subject.CommonName
 	org   string   // Subject.Organization
@@ -159,7 +160,7 @@ func (c csrSpec) tok() string {
 // csrDERShape says which forms carry a DER that x509.ParseCertificateRequest accepts.
 func csrFormParses(form string) bool {
 	switch form {
-	case "ok", "oktype", "oktrail", "oklead", "badsig":
+	case "ok", "oktype", "oktrail", "oklead", "badsig", "gen":
 		return true
 	}
 	return false
@@ -187,6 +188,25 @@ func (k *keyring) build(c csrSpec) (string, []byte) {
 		return string(pem.EncodeToMemory(&pem.Block{Type: "CERTIFICATE REQUEST", Bytes: []byte{0x30, 0x03, 0x02, 0x01, 0x01}})), nil
 	case "emptyblock":
 		return "-----BEGIN CERTIFICATE REQUEST-----\n-----END CERTIFICATE REQUEST-----\n", nil
+	}
+	if c.form == "gen" {
+		// the CSR an Istio agent sends: the REAL util.GenCSR (fresh key; dual-use CN iff a CN is asked for)
+		o := util.CertOptions{Host: strings.Join(c.sans, ","), Org: c.org, IsDualUse: c.cn != "", ECSigAlg: util.EcdsaSigAlg, PKCS8Key: c.extra}
+		switch c.key {
+		case "ec384":
+			o.ECCCurve = util.P384Curve
+		case "rsa-a":
+			o.ECSigAlg, o.RSAKeySize = "", 2048
+		}
+		csrPEM, _, err := util.GenCSR(o)
+		if err != nil {
+			return "csr-build-failed:" + err.Error(), nil
+		}
+		parsed, err := util.ParsePemEncodedCSR(csrPEM)
+		if err != nil {
+			return "csr-build-failed:" + err.Error(), nil
+		}
+		return string(csrPEM), parsed.RawSubjectPublicKeyInfo
 	}
 	priv := k.keys[c.key]
 	if priv == nil {
@@ -246,6 +266,8 @@ func (k *keyring) build(c csrSpec) (string, []byte) {
 // ---------------------------------------------------------------- fixtures: CAs
 
 type caFixtures struct {
+	k8s    *k8sfake.Clientset // the API server holding istio-ca-secret (kind selfk8s)
+	rsaInt [][]byte           // cached RSA intermediate: cert PEM, key PEM
 	selfBundle *util.KeyCertBundle // RSA self-signed root, built once (real NewSelfSignedDebugIstioCAOptions)
 	rootPem    []byte
 	rootCert   *x509.Certificate
@@ -339,6 +361,56 @@ func (f *caFixtures) buildCA(kind string, life, chainLife int64, def, max int64)
 				bundle = util.NewKeyCertBundleFromPem(c, k, append(append([]byte(nil), c2...), c...), f.rootPem, nil)
 			}
 		}
+	case "plugfile":
+		// through the production constructor for a plugged-in CA: files on disk, NewPluggedCertIstioCAOptions
+		var c, k []byte
+		if c, k, err = f.signerCert(f.rootCert, f.rootKey, life); err != nil {
+			break
+		}
+		dir, derr := os.MkdirTemp("", "c09-ca")
+		if derr != nil {
+			err = derr
+			break
+		}
+		defer os.RemoveAll(dir)
+		files := ca.SigningCAFileBundle{RootCertFile: dir + "/root-cert.pem", CertChainFiles: []string{dir + "/cert-chain.pem"},
+			SigningCertFile: dir + "/ca-cert.pem", SigningKeyFile: dir + "/ca-key.pem"}
+		for name, data := range map[string][]byte{files.RootCertFile: f.rootPem, files.CertChainFiles[0]: c, files.SigningCertFile: c, files.SigningKeyFile: k} {
+			if err = os.WriteFile(name, data, 0o600); err != nil {
+				break
+			}
+		}
+		if err != nil {
+			break
+		}
+		opts, oerr := ca.NewPluggedCertIstioCAOptions(files, time.Duration(def)*time.Second, time.Duration(max)*time.Second, 2048)
+		if oerr != nil {
+			return nil, fmt.Errorf("fixture: %v", oerr)
+		}
+		return ca.NewIstioCA(opts)
+	case "selfk8s":
+		// through the production constructor for the self-signed CA: NewSelfSignedIstioCAOptions against a
+		// (fake) Kubernetes API - the first call generates the root and stores istio-ca-secret, later calls load it
+		if f.k8s == nil {
+			f.k8s = k8sfake.NewSimpleClientset()
+		}
+		opts, oerr := ca.NewSelfSignedIstioCAOptions(context.Background(), 20, time.Duration(farLife)*time.Second, time.Hour,
+			time.Duration(def)*time.Second, time.Duration(max)*time.Second, "verif.org", false, false, "istio-system", f.k8s.CoreV1(), "", false, 2048)
+		if oerr != nil {
+			return nil, fmt.Errorf("fixture: %v", oerr)
+		}
+		return ca.NewIstioCA(opts)
+	case "plugrsa":
+		// an RSA intermediate under the ECDSA root (generated once per process, ten years)
+		if f.rsaInt == nil {
+			c, k, gerr := util.GenCertKeyFromOptions(util.CertOptions{IsCA: true, Org: "RSA Signing CA", RSAKeySize: 2048, SignerCert: f.rootCert,
+				SignerPriv: f.rootKey, TTL: time.Duration(farLife) * time.Second})
+			if gerr != nil {
+				return nil, fmt.Errorf("fixture: %v", gerr)
+			}
+			f.rsaInt = [][]byte{c, k}
+		}
+		bundle, err = util.NewVerifiedKeyCertBundleFromPem(f.rsaInt[0], f.rsaInt[1], f.rsaInt[0], f.rootPem, nil)
 	case "nosigner":
 		bundle = util.NewKeyCertBundleFromPem(nil, nil, nil, f.rootPem, nil)
 	case "expired":
@@ -1336,6 +1408,49 @@ func (s *issueSUT) apply(f []string) (out string) {
 		s.caOK = true
 		s.maxTTL = max
 		return "ca-ok"
+	case "rot":
+		// the key cert bundle changes under the live CA (what the root-cert rotator / a cacerts reload do):
+		// rot <signer life> <chain lives> - a new ECDSA signer under the same root
+		if !s.caOK || len(f) != 3 {
+			return "bad-op"
+		}
+		life, _ := strconv.ParseInt(f[1], 10, 64)
+		c, k, err := s.fix.signerCert(s.fix.rootCert, s.fix.rootKey, life)
+		if err != nil {
+			return "fixture-failed " + wire.Enc(err.Error())
+		}
+		var chain []byte
+		if f[2] != "-" {
+			chain = c
+		}
+		if err := s.holder.cur.GetCAKeyCertBundle().VerifyAndSetAll(c, k, chain, s.fix.rootPem, nil); err != nil {
+			return "rot-err"
+		}
+		return "rot-ok"
+	case "genkeycert":
+		// istiod's own serving certificate: the real IstioCA.GenKeyCert (signWithCertChain without lifetime check)
+		if !s.caOK || len(f) != 3 {
+			return "bad-op"
+		}
+		ttl, _ := strconv.ParseInt(f[2], 10, 64)
+		certPEM, _, err := s.holder.cur.GenKeyCert(wire.DecList(f[1]), time.Duration(ttl)*time.Second, false)
+		if err != nil {
+			return "err"
+		}
+		l, perr := parseLeaf(string(certPEM))
+		if perr != nil {
+			return "unparsable-leaf " + wire.Enc(perr.Error())
+		}
+		sans := "-"
+		if len(l.sans) > 0 {
+			sans = strings.Join(l.sans, ",")
+		}
+		signer := s.signerCert()
+		life := "clamp"
+		if signer == nil || !l.notAfter.Equal(signer.NotAfter) {
+			life = strconv.FormatInt(int64(l.notAfter.Sub(l.notBefore)/time.Second)-120, 10)
+		}
+		return fmt.Sprintf("ok san=%s ca=%s sig=%s life=%s", sans, wire.B(l.isCA), wire.B(s.signedBySigner(l)), life)
 	case "pod", "cl":
 		if s.cur == nil || !s.private {
 			return "bad-op"
